@@ -871,5 +871,5 @@ impl<T: ?Sized + Trace + UnwindSafe> UnwindSafe for Cc<T> {}
 impl<T: ?Sized + Trace + RefUnwindSafe> RefUnwindSafe for Cc<T> {}
 
 #[cfg(kani)]
-#[path = "/verif/kani/cc_proofs.rs"]
-pub(crate) mod verif_proofs; // verification hook (H2): specs and contract harnesses live in /verif
+#[allow(dead_code, unused_imports, unused_variables, unused_macros, static_mut_refs)]
+pub(crate) mod verif_proofs { include!(concat!(env!("VERIF_KANI_DIR"), "/cc_proofs.rs")); } // verification hook (H2): specs and contract harnesses live in /verif
